@@ -51,10 +51,12 @@ def representable(tname, v):
     if tname == 'BOOL':
         return True
     if tname in INT_RANGE:
-        if isinstance(v, float):
+        if isinstance(v, (float, str)):
             return False
         lo, hi = INT_RANGE[tname]
         return lo <= int(v) <= hi
+    if isinstance(v, str):
+        return False
     if tname == 'REAL':
         try:
             struct.pack('<f', v)
